@@ -15,7 +15,7 @@ import (
 func init() {
 	register(&Prop{
 		ID:          "C04",
-		Explanation: "Decides that sessions are built from claims only behind token verification: idTokenVerifier.Verify returns a token only when go-oidc's Verify returned it without error and verifyAudience's verdict was true; verifyAudience/isValidAudience are true only on a membership hit of a token audience in allowedAudiences, whose only writer is NewVerifier (keys: ClientID, ExtraAudiences); every oidc.Config literal leaves expiry and signature checks on and takes SkipIssuerCheck from SkipIssuerVerification alone (SkipClientIDCheck:true is accepted because the own audience check is proven); createSession / CreateSessionFromToken / the bearer closure build a session from the raw token only on paths where that same token passed Verify (sole exception: refresh with ErrMissingIDToken, where the token string is empty); the email_verified gate guards every success return of the two claim readers; the bearer loader list holds only provider.CreateSessionFromToken and CreateTokenToSessionFunc(verifier.Verify); every override of CreateSessionFromToken/RefreshSession/Redeem on an OIDC-embedding provider succeeds only after the embedded implementation succeeded; the claim extractor's token document is set once and never mutated, and GetClaim returns a profile-endpoint value only after the token lookup for that claim returned nothing. Added during the build: buildSessionFromClaims reads a claim from the verified token's claims before any profile-URL fallback (R7). Every go-oidc Claims() target is a variable of the calling invocation, so claims absent from one token cannot be inherited from another (R8). Round 3: every write of ProviderVerifierOptions.SkipIssuerVerification is the operator's option or constant false (under R2).",
+		Explanation: "Decides that sessions are built from claims only behind token verification: idTokenVerifier.Verify returns a token only when go-oidc's Verify returned it without error and verifyAudience's verdict was true; verifyAudience/isValidAudience are true only on a membership hit of a token audience in allowedAudiences, whose only writer is NewVerifier (keys: ClientID, ExtraAudiences); every oidc.Config literal leaves expiry and signature checks on and takes SkipIssuerCheck from SkipIssuerVerification alone (SkipClientIDCheck:true is accepted because the own audience check is proven); createSession / CreateSessionFromToken / the bearer closure build a session from the raw token only on paths where that same token passed Verify (sole exception: refresh with ErrMissingIDToken, where the token string is empty); the email_verified gate guards every success return of the two claim readers; the bearer loader list holds only provider.CreateSessionFromToken and CreateTokenToSessionFunc(verifier.Verify); every override of CreateSessionFromToken/RefreshSession/Redeem on an OIDC-embedding provider succeeds only after the embedded implementation succeeded; the claim extractor's token document is set once and never mutated, and GetClaim returns a profile-endpoint value only after the token lookup for that claim returned nothing. Added during the build: buildSessionFromClaims reads a claim from the verified token's claims before any profile-URL fallback (R7). Every go-oidc Claims() target is a variable of the calling invocation, so claims absent from one token cannot be inherited from another (R8). Round 3: every write of ProviderVerifierOptions.SkipIssuerVerification is the operator's option or constant false (under R2). Round 4: each insecure OIDC toggle is converted from the legacy flag of the same meaning (R9); every verifier is built from an options value of its own (R10); verifyAudience consults at most one audience claim found in the token — the first configured one present decides (under R1).",
 		NotDecided:  "claim-value equality between token and session fields; go-oidc's signature/issuer/expiry code (trusted when not told to skip); the legacy Azure provider's extractClaimsIntoSession (verifies either token, reads the ID token's claims) is listed as an unclaimed site.",
 		Run:         runC04,
 	})
@@ -52,11 +52,10 @@ func runC04R1(c *Ctx) { runVerifierRule(c, "R1-verifier") }
 func runVerifierRule(c *Ctx, rule string) {
 	verify := c.Fn(rule, "(*pkg/providers/oidc.idTokenVerifier).Verify")
 	va := c.Fn(rule, "(*pkg/providers/oidc.idTokenVerifier).verifyAudience")
-	iva := c.Fn(rule, "(*pkg/providers/oidc.idTokenVerifier).isValidAudience")
 	newVerifier := c.Fn(rule, "pkg/providers/oidc.NewVerifier")
 	allowedF := c.Field(rule, "pkg/providers/oidc.idTokenVerifier.allowedAudiences")
 	audF := c.P.Field("github.com/coreos/go-oidc/v3/oidc.IDToken.Audience")
-	if verify == nil || va == nil || iva == nil || newVerifier == nil || allowedF == nil || audF == nil {
+	if verify == nil || va == nil || newVerifier == nil || allowedF == nil || audF == nil {
 		if audF == nil {
 			c.R.Unknown(rule, "anchor:oidc.IDToken.Audience", "-", "go-oidc IDToken.Audience field not found")
 		}
@@ -89,7 +88,8 @@ func runVerifierRule(c *Ctx, rule string) {
 		}
 		c.ok(rule, key, p.Exit, "go-oidc Verify ok && verifyAudience(token)==true")
 	})
-	// verifyAudience: a possibly-true verdict is isValidAudience's on token.Audience and v.allowedAudiences
+	// verifyAudience: a possibly-true verdict needs a membership hit of an element of token.Audience in
+	// v.allowedAudiences. The isValidAudience helper is not an anchor: where it exists the walker inlines it.
 	c.Walk(rule, va, func(p *walk.Path) {
 		rv, ok := p.ReturnDV(0)
 		if !ok {
@@ -99,39 +99,55 @@ func runVerifierRule(c *Ctx, rule string) {
 			return
 		}
 		key := "true-verdict|" + fnKey(va)
-		cl, ok := extractOfCall(p, rv, 0)
-		if !ok || cl.C.StaticCallee() != iva {
-			c.bad(rule, key, p.Exit, "verifyAudience can report true other than as isValidAudience's verdict", p, p.End())
-			return
-		}
-		if !fieldLoadOn(p, p.Arg(cl, 2), audF, walk.DV{V: va.Params[1]}) || !walk.IsFieldLoad(p.Resolve(p.Arg(cl, 3)).V, allowedF) {
-			c.bad(rule, key, p.Exit, "isValidAudience is not applied to (token.Audience, v.allowedAudiences)", p, p.End())
-			return
-		}
-		c.ok(rule, key, p.Exit, "isValidAudience(claim, token.Audience, v.allowedAudiences)")
-	})
-	c.Walk(rule, iva, func(p *walk.Path) {
-		rv, ok := p.ReturnDV(0)
-		if !ok {
-			return
-		}
-		if b, k := p.Truth(rv, p.End()); k && !b {
-			return
-		}
-		key := "true-verdict|" + fnKey(iva)
-		if lookupHit(p, p.End(), func(m walk.DV) bool { return p.Resolve(m).V == iva.Params[3] }, func(k walk.DV) bool {
-			u, ok := p.Resolve(k).V.(*ssa.UnOp)
+		if lookupHit(p, p.End(), func(m walk.DV) bool { return walk.IsFieldLoad(p.Resolve(m).V, allowedF) }, func(k walk.DV) bool {
+			r := p.Resolve(k)
+			u, ok := r.V.(*ssa.UnOp)
 			if !ok {
 				return false
 			}
 			ia, ok := u.X.(*ssa.IndexAddr)
-			return ok && ia.X == iva.Params[2]
+			return ok && fieldLoadOn(p, p.Op(ia.X, p.Op(ia, r)), audF, walk.DV{V: va.Params[1]})
 		}) {
-			c.ok(rule, key, p.Exit, "some audience of the token is a key of allowedAudiences")
+			c.ok(rule, key, p.Exit, "some element of token.Audience is a key of v.allowedAudiences")
 		} else {
-			c.bad(rule, key, p.Exit, "isValidAudience can return true without a membership hit of a token audience in allowedAudiences", p, p.End())
+			c.bad(rule, key, p.Exit, "verifyAudience can report true without a membership hit of one of the token's audiences in v.allowedAudiences", p, p.End())
 		}
 	})
+	// the first configured audience claim that the token carries decides: no path looks at a second claim after one
+	// was found (a later claim such as azp/client_id "rescuing" a token whose audience is another service)
+	{
+		key := "first-claim-decides|" + fnKey(va)
+		worst := 0
+		var at ssa.Instruction
+		c.Walk(rule, va, func(p *walk.Path) {
+			hits := 0
+			for _, a := range p.Atoms(p.End()) {
+				if a.IsNil || !a.Val {
+					continue
+				}
+				ex, ok := a.DV.V.(*ssa.Extract)
+				if !ok || ex.Index != 1 {
+					continue
+				}
+				t := p.Resolve(p.Op(ex.Tuple, a.DV))
+				if lk, ok := t.V.(*ssa.Lookup); ok && lk.CommaOk && len(va.Params) > 2 && p.Resolve(p.Op(lk.X, t)).V == ssa.Value(va.Params[2]) {
+					hits++
+				}
+			}
+			if hits > worst {
+				worst = hits
+				at = p.Exit
+				if hits > 1 {
+					c.bad(rule, key, p.Exit, "verifyAudience goes on to another configured audience claim after one was found in the token: a token whose audience is not allowed is accepted because a later claim holds an allowed value", p, p.End())
+				}
+			}
+		})
+		if worst == 1 {
+			c.ok(rule, key, at, "every path consults at most one audience claim found in the token")
+		} else if worst == 0 {
+			c.R.Unknown(rule, key, c.P.Pos(va.Pos()), "no lookup of a configured audience claim in the token's claims found")
+		}
+	}
 	// writers of allowedAudiences
 	for _, ref := range c.fieldRefs(allowedF) {
 		if ref.Kind == "load" {
